@@ -26,6 +26,8 @@ void vp_init(unsigned nsucc) {
   new (&vp_node_mem.x) node_t(vp_graph());
   for (unsigned i = 0; i < nsucc; i++) { new (&vp_succ(i)) vp_recv(); vp_succ(i).id = i; N().register_successor(vp_succ(i)); }
 }
+// construct the harness successors that are not registered at init (they may be registered later by the driver)
+void vp_init_extra_succ(unsigned from) { for (unsigned i = from; i < 3; i++) { new (&vp_succ(i)) vp_recv(); vp_succ(i).id = i; } }
 unsigned vp_put(int v) { return N().try_put(v); }
 // what a successor in pull mode does (predecessor_cache::get_item / reservable_predecessor_cache): calls on the sender interface
 unsigned vp_get(int* v) { return static_cast<sender<int>&>(N()).try_get(*v); }
@@ -44,4 +46,28 @@ unsigned vp_fwd_busy() { return 0; }
 unsigned vp_reserved() { return 0; }
 #endif
 unsigned long vp_nsucc() { return N().my_successors.my_successors.size(); }
+}
+
+extern "C" { void vp_emit(unsigned long v); unsigned vp_st_bag(); void vp_st_push(void*); void* vp_st_take(unsigned newest); void vp_st_reset(unsigned avail, unsigned accmask, unsigned flipmask); void vp_st_arena(unsigned); }
+static void st_run(unsigned newest) {
+  if (!vp_st_bag()) return;
+  d1::task* t = static_cast<d1::task*>(vp_st_take(newest));
+  void* b = vp_run_task(t, 0);
+  if (b) vp_st_push(b);
+}
+static void st_state() { vp_emit(vp_size()); vp_emit(vp_graph_refs()); vp_emit(vp_nsucc()); vp_emit(vp_fwd_busy()); vp_emit(vp_reserved()); vp_emit(vp_st_bag()); }
+extern "C" void vp_selftest() {
+  for (unsigned flip = 0; flip < 4; flip++) {
+    vp_st_reset(0, 0x1a4, flip); vp_init(2); vp_refv_init(0);
+    st_run(0); st_state();
+    for (int i = 0; i < 3; i++) { vp_emit(vp_put(10 + i)); st_state(); st_run(0); st_state(); }
+    int v = 0; vp_emit(vp_get(&v)); vp_emit(v); st_state();
+    vp_emit(vp_reserve(&v)); vp_emit(v); st_state(); if (vp_reserved()) { vp_release(); st_state(); }
+    vp_add_succ(0); st_state(); st_run(1); st_state(); vp_emit(vp_put(20)); st_run(0); st_state();
+    vp_emit(vp_reserve(&v)); if (vp_reserved()) { vp_consume(); st_state(); }
+    vp_remove_succ(1); st_state(); vp_emit(vp_put(21));
+    for (int i = 0; i < 6; i++) st_run(0);
+    st_state();
+    for (int i = 0; i < 5; i++) { v = 0; vp_emit(vp_get(&v)); vp_emit(v); }
+  }
 }
